@@ -26,14 +26,9 @@ Proof.
   vm_compute. discriminate.
 Qed.
 
-Lemma many_refs_l : exists def retrieve val ts,
-  wf def retrieve val ts /\ plain val ts /\ has_text ts = true /\ nrefs ts = 1000 /\
-  resolve_string def retrieve (flatten ts) = Err [ETooMany].
-Proof. exists w_def, w_retrieve, w_val, (w_tokens 1000). exact many_refs_refused. Qed.
-
 Lemma escaped_ref_kept_l def retrieve val pre n post :
   wf def retrieve val (pre ++ esc_ref n ++ post) -> plain val (pre ++ esc_ref n ++ post) ->
-  nrefs (pre ++ esc_ref n ++ post) < 1000 ->
+  nrefs (pre ++ esc_ref n ++ post) <= max_expansions ->
   resolve_string def retrieve (flatten pre ++ cDollar :: ref_text n ++ flatten post)
   = Ok (CStr (sem val pre ++ ref_text n ++ sem val post)).
 Proof.
